@@ -27,6 +27,9 @@ type Property struct {
 	// EvalCounter names the trace counter reported as "evaluations".
 	EvalCounter string
 	Components  map[string]string // real / stub
+	// NoRecheck: re-execution fingerprints are not compared (C17: output that depends on Go map iteration order
+	// is itself the violation class being looked for).
+	NoRecheck bool
 	// RequiredProbes lists, per tier, probes / fault kinds / counters that must be non-zero (reach).
 	RequiredProbes map[string][]string
 	Assumptions    []string
@@ -79,6 +82,8 @@ func ExecPlan(p *Plan, pool *Pool, verbose bool) (t *core.Trace) {
 	w.Run()
 	if p.Profile == "compose" {
 		t.Samples = append(t.Samples, describeComposePlan(p))
+	} else if p.Profile == "longform" {
+		t.Samples = append(t.Samples, describeLongFormPlan(p))
 	} else if len(p.Steps) > 0 && p.Steps[0].Op == SEnum {
 		t.Samples = append(t.Samples, describeEnumPlan(p))
 	} else {
